@@ -131,6 +131,13 @@ Theorem yaml_text_roundtrip_v0_refuted : exists c,
   tree_exportable (cstore c) = true /\ text_roundtrip_v0 c <> roundtrip_spec c.
 Proof. exact ConfigFacts.yaml_text_roundtrip_v0_refuted. Qed.
 
+(* ---- the file route before the repair (finding C18-file-route-raises-on-non-dict-stage-option):
+   extrema_opts = None, the functions' own default, could not be saved ---- *)
+Theorem yaml_file_roundtrip_v0_refuted : exists c,
+  tree_exportable (cstore c) = true /\ file_roundtrip c = roundtrip_spec c
+  /\ file_roundtrip_v0 c <> roundtrip_spec c.
+Proof. exact ConfigFacts.yaml_file_roundtrip_v0_refuted. Qed.
+
 (* ---- defaults: re-proved by computation against today's signatures and literal fall-backs ---- *)
 Theorem default_config_faithful : forall v t, In (v, t) config_trees ->
   effective_options sig_defaults fallbacks v t = effective_options sig_defaults fallbacks v (Node [])
@@ -191,6 +198,7 @@ Print Assumptions yaml_text_roundtrip.
 Print Assumptions yaml_contract_inhabited.
 Print Assumptions yaml_text_v0_installs_list.
 Print Assumptions yaml_text_roundtrip_v0_refuted.
+Print Assumptions yaml_file_roundtrip_v0_refuted.
 Print Assumptions default_config_faithful.
 Print Assumptions default_config_exportable.
 Print Assumptions c18_defaults_nonvacuous.
